@@ -21,7 +21,7 @@ def build():
                      ('int', 'moveTime', ''), ('bool', 'infinite', ''), ('S64', 'startTime', '')])
     U.struct(EC_H, 'EngineControl', only=['pos', 'ponder', 'onePossibleMove', 'infinite', 'minTimeLimit', 'maxTimeLimit',
                                           'earlyStopPercentage', 'maxDepth', 'maxNodes'])
-    U.struct(S_H, 'Search', only=['tStart', 'minTimeMillis', 'maxTimeMillis', 'earlyStopPercentage'])
+    U.struct(S_H, 'Search', only=['tStart', 'minTimeMillis', 'maxTimeMillis', 'earlyStopPercentage', 'searchNeedMoreTime', 'hardFactor', 'maxNodes'])
     U.raw('''
 int in_wTime, in_bTime, in_wInc, in_bInc, in_movesToGo, in_depth, in_nodes, in_mate, in_moveTime; _Bool in_infinite, in_whiteMove;   /* input mirrors for the native replay */
 _Bool ghost_opt_ponder;        /* UCI option Ponder (UciParams::ponder->getBoolPar()) */
@@ -43,6 +43,15 @@ int ghost_last_min, ghost_last_max, ghost_last_esp; _Bool ghost_delivered;  /* l
                cls='EngineControl', is_static=False,
                rules=[(r'moves->size', 'ghost_nmoves', 1)])
     U.pull(S_C, 'Search::timeLimit')
+    # the time / node test of the periodic stop test Search::shouldStop (between the polling of helper results and the MaxNPS throttle)
+    U.raw('S64 ghost_now, ghost_nodes;   /* currentTimeMillis(), getTotalNodes() */\n')
+    U.passthrough('ghost_now', 'ghost_nodes')
+    U.fragment(S_C, 'Search_shouldStop_time', r'S64 tNow = currentTimeMillis\(\);', r'if \(maxNPS > 0\) \{', within='Search::shouldStop', ret='bool', params=[], cls='Search', is_static=False,
+               rules=[(r'currentTimeMillis\(\)', 'ghost_now', 1), (r'getTotalNodes\(\)', 'ghost_nodes', 1)], epilogue='\n    return false;\n')
+    # the time test between iterations of iterativeDeepening, with the update of hardFactor
+    U.fragment(S_C, 'Search_iterDeep_timeTest', r'S64 tNow = currentTimeMillis\(\);\s*\{\s*double f = ', r'if \(!firstIteration && !knownLoss && rootMoves\[maxPV - 1\]\.knownLoss\)', within='Search::iterativeDeepening',
+               ret='bool', params=[('U64', 'ghost_rm_nodes', False), ('S64', 'totalNodes', False)], cls='Search', is_static=False,
+               rules=[(r'currentTimeMillis\(\)', 'ghost_now', 1), (r'rootMoves\[0\]\.nodes', 'ghost_rm_nodes', 1), (r'\bbreak;', 'return true;', '1+')], epilogue='\n    return false;\n')
     return U
 
 
@@ -53,6 +62,8 @@ SPEC = r'''
    && 0 <= (s)->wInc && (s)->wInc <= 100000 && 0 <= (s)->bInc && (s)->bInc <= 100000 \
    && 0 <= (s)->movesToGo && (s)->movesToGo <= 100 && 0 <= (s)->moveTime && (s)->moveTime <= 100000 \
    && 0 <= (s)->depth && (s)->depth <= 1000000 && 0 <= (s)->mate && (s)->mate <= 1000000 && 0 <= (s)->nodes )
+/* limits as Search::timeLimit receives them: both absent (-1), or 0 <= soft <= hard (computeTimeLimit / ponderHit / single-move clamp contracts) */
+#define LIMITS_OK(sc) (((sc)->minTimeMillis == -1 && (sc)->maxTimeMillis == -1) || (0 <= (sc)->minTimeMillis && (sc)->minTimeMillis <= (sc)->maxTimeMillis && (sc)->maxTimeMillis <= 100000000))
 #define MY_TIME(self, s) ((self)->pos.whiteMove ? (s)->wTime : (s)->bTime)
 #define BUDGET(self, s) (MY_TIME(self, s) - STD_MIN(bufferTime, MY_TIME(self, s) * 9 / 10))
 '''
@@ -106,6 +117,25 @@ CONTRACTS = {
             '(ghost_nmoves < 2 && !self->infinite && !self->ponder && __CPROVER_old(*maxTimeLimit) > 0) ==> *maxTimeLimit <= 100',
         ],
     },
+    # C06: once the hard limit is reached the periodic test says stop (for either kind of limit in force); an infinite search is not stopped by it
+    'Search_shouldStop_time': {
+        'requires': ['__CPROVER_is_fresh(self, sizeof(*self))', 'LIMITS_OK(self)', 'self->hardFactor >= 0.3 && self->hardFactor <= 3.5',
+                     '0 <= self->tStart && self->tStart <= ghost_now && ghost_now <= (1LL << 60)', 'ghost_nodes >= 0'],
+        'assigns': [],
+        'ensures': ['(self->maxTimeMillis >= 0 && ghost_now - self->tStart >= self->maxTimeMillis) ==> __CPROVER_return_value',
+                    '(self->maxNodes >= 0 && ghost_nodes >= self->maxNodes) ==> __CPROVER_return_value',
+                    '(self->maxTimeMillis < 0 && self->maxNodes < 0) ==> !__CPROVER_return_value'],
+    },
+    # between iterations: hardFactor stays inside [0.3, 3.5]; the loop is left once the hard limit is reached
+    'Search_iterDeep_timeTest': {
+        'requires': ['__CPROVER_is_fresh(self, sizeof(*self))', 'LIMITS_OK(self)', 'self->hardFactor >= 0.3 && self->hardFactor <= 3.5',
+                     '0 <= self->tStart && self->tStart <= ghost_now && ghost_now <= (1LL << 60)', '0 < totalNodes && totalNodes <= (1LL << 60)', 'ghost_rm_nodes <= (U64)totalNodes',
+                     '0 < self->earlyStopPercentage && self->earlyStopPercentage <= 10000'],
+        'assigns': ['self->hardFactor'],
+        'ensures': ['self->hardFactor >= 0.3 && self->hardFactor <= 3.5',
+                    '(self->maxTimeMillis >= 0 && ghost_now - self->tStart >= self->maxTimeMillis) ==> __CPROVER_return_value',
+                    'self->maxTimeMillis < 0 ==> !__CPROVER_return_value'],
+    },
     'Search_timeLimit': {
         'requires': ['__CPROVER_is_fresh(self, sizeof(*self))', 'IN_RANGE(minTimeUsage)'],
         'assigns': ['self->minTimeMillis, self->maxTimeMillis, self->earlyStopPercentage, self->tStart'],
@@ -121,12 +151,13 @@ HARNESS = r'''
 #else
 #define CANARY_POINT
 #endif
-int nondet_int(void);
+int nondet_int(void); S64 nondet_s64(void);
 static void havoc_globals(void) {
     timeMaxRemainingMoves = nondet_int(); bufferTime = nondet_int(); maxTimeUsage = nondet_int(); timePonderHitRate = nondet_int();
     in_wTime = nondet_int(); in_bTime = nondet_int(); in_wInc = nondet_int(); in_bInc = nondet_int(); in_movesToGo = nondet_int(); in_depth = nondet_int(); in_nodes = nondet_int();
     in_mate = nondet_int(); in_moveTime = nondet_int(); in_infinite = (nondet_int() != 0); in_whiteMove = (nondet_int() != 0);
     minTimeUsage = nondet_int(); ghost_opt_ponder = (nondet_int() != 0); ghost_sc_nonnull = (nondet_int() != 0); ghost_nmoves = nondet_int();
+    ghost_now = nondet_s64(); ghost_nodes = nondet_s64();
     ghost_last_min = nondet_int(); ghost_last_max = nondet_int(); ghost_last_esp = nondet_int(); ghost_delivered = (nondet_int() != 0);
 }
 void h_ctl_noponder(void) { struct EngineControl* e; struct SearchParams* s; havoc_globals(); ghost_opt_ponder = 0;
@@ -138,6 +169,8 @@ void h_ctl_ponder_all(void) { struct EngineControl* e; struct SearchParams* s; h
     EngineControl_computeTimeLimit(e, s); CANARY_POINT; }
 void h_ponderHit(void) { struct EngineControl* e; havoc_globals(); EngineControl_ponderHit(e); CANARY_POINT; }
 void h_oneMove(void) { struct EngineControl* e; int *a, *b, *c; havoc_globals(); EngineControl_startThread_oneMove(e, a, b, c); CANARY_POINT; }
+void h_shouldStop(void) { struct Search* s; havoc_globals(); Search_shouldStop_time(s); CANARY_POINT; }
+void h_iterTime(void) { struct Search* s; U64 a; S64 b; havoc_globals(); Search_iterDeep_timeTest(s, a, b); CANARY_POINT; }
 void h_timeLimit(void) { struct Search* s; int a, b, c; S64 t; havoc_globals(); Search_timeLimit(s, a, b, c, t); CANARY_POINT; }
 '''
 
@@ -149,6 +182,8 @@ GROUPS = [
     Group('ponderHit', 'h_ponderHit', enforce='EngineControl_ponderHit', replace=('ghost_sc_timeLimit',), min_props=5),
     Group('oneMove', 'h_oneMove', enforce='EngineControl_startThread_oneMove', min_props=5),
     Group('Search_timeLimit', 'h_timeLimit', enforce='Search_timeLimit', min_props=4),
+    Group('shouldStop_time', 'h_shouldStop', enforce='Search_shouldStop_time', checks=_FL, min_props=4, timeout=900),
+    Group('iterDeep_timeTest', 'h_iterTime', enforce='Search_iterDeep_timeTest', checks=_FL, min_props=4, timeout=900),
 ]
 PROPERTIES = {'C06': [g.name for g in GROUPS]}
 ASSUMPTIONS = {'C06': [
@@ -157,7 +192,7 @@ ASSUMPTIONS = {'C06': [
     'go parameters depth/mate <= 10^6, nodes >= 0 (not part of the property domain; needed for absence of overflow in mate*2-1)',
     'IEEE-754 double arithmetic as encoded bit-precisely by CBMC (round to nearest)',
 ]}
-NOT_DECIDED = {'C06': ['wall-clock delivery of the best move (polling interval, stop path, threads, MaxNPS sleeping) - needs execution, not a contract of a sequential function']}
+NOT_DECIDED = {'C06': ['the time test between root moves inside the first iteration loop (search.cpp:254-260) is not under contract', 'wall-clock delivery of the best move (polling interval, stop path, threads, MaxNPS sleeping) - needs execution, not a contract of a sequential function']}
 
 MUTANTS = [
     dict(name='margin_factor', file='app/texel/enginecontrol.cpp', pattern=r'time \* 9 / 10', repl='time * 10 / 9', groups=['computeTimeLimit_noponder']),
@@ -168,5 +203,9 @@ MUTANTS = [
     dict(name='ponderhit_no_clamp_max', file='app/texel/enginecontrol.cpp', pattern=r'if \(maxTimeLimit > 1\) maxTimeLimit = 1;', repl='', groups=['ponderHit']),
     dict(name='onemove_clamp_swapped', file='app/texel/enginecontrol.cpp', pattern=r'minTimeLimit = clamp\(minTimeLimit/100, 1, 100\);', repl='minTimeLimit = clamp(minTimeLimit/10, 1, 1000);', groups=['oneMove']),
     dict(name='wrong_side_clock', file='app/texel/enginecontrol.cpp', pattern=r'int time = white \? sPar.wTime : sPar.bTime;', repl='int time = white ? sPar.bTime : sPar.wTime;', groups=['computeTimeLimit_noponder']),
+    dict(name='shouldStop_strict', file='lib/texellib/search.cpp', pattern=r'\(\(timeLimit >= 0\) && \(tNow - tStart >= timeLimit\)\)', repl='((timeLimit >= 0) && (tNow - tStart > timeLimit))', groups=['shouldStop_time']),
+    dict(name='shouldStop_unclamped_soft', file='lib/texellib/search.cpp', pattern=r'minT = std::min\(\(S64\)\(minT \* hardFactor\), maxT\);', repl='minT = (S64)(minT * hardFactor);', groups=['shouldStop_time']),
+    dict(name='iterDeep_hardFactor_average', file='lib/texellib/search.cpp', pattern=r'hardFactor = \(hardFactor \+ hard\) / 2;', repl='hardFactor = hardFactor + hard / 2;', groups=['iterDeep_timeTest']),
+    dict(name='iterDeep_no_hard_test', file='lib/texellib/search.cpp', pattern=r'            if \(tNow - tStart >= maxTimeMillis\)\n                break;\n', repl='', groups=['iterDeep_timeTest']),
     dict(name='timelimit_swapped', file='lib/texellib/search.cpp', pattern=r'maxTimeMillis = maxTimeLimit;', repl='maxTimeMillis = minTimeLimit;', groups=['Search_timeLimit']),
 ]
